@@ -135,24 +135,31 @@ func checkC19(p *Prog, r *Report) {
 	if r.Anchor("evaluateRewriteRules", ev != nil) {
 		t := p.NewTable(ev)
 		t.MaxRange = 2
+		// roles of the locals, by what defines them
+		specObj := p.localByDef(ev, func(rhs ast.Expr) bool {
+			c, ok := unparen(rhs).(*ast.CallExpr)
+			return ok && p.CalleeName(c) == "ice.catchAllSpecificity"
+		})
+		bestObj := p.localByDef(ev, func(rhs ast.Expr) bool { return p.isObj(rhs, specObj) })
+		takeObj := p.localByDef(ev, func(rhs ast.Expr) bool { return p.MentionsField(rhs, "ipMapping.ipSole") })
+		modeObj := p.localByDef(ev, func(rhs ast.Expr) bool { return p.IsField(rhs, "addressRewriteRuleMapping.mode") })
+		r.Anchor("evaluateRewriteRules: rank / best / candidate / mode variables", specObj != nil && bestObj != nil && takeObj != nil && modeObj != nil)
 		t.Event = func(n ast.Node, _ *TEnv) []string {
 			switch x := n.(type) {
 			case *RangeAssign:
 				return []string{"iter"}
 			case *ast.AssignStmt:
 				if len(x.Lhs) == 1 {
-					if id, ok := x.Lhs[0].(*ast.Ident); ok {
-						switch id.Name {
-						case "catchAll":
-							return []string{"take"}
-						case "catchAllMode":
-							if p.IsField(x.Rhs[0], "addressRewriteRuleMapping.mode") {
-								return []string{"mode"}
-							}
-							return []string{"mode?"}
-						case "bestSpec":
-							return []string{"best"}
+					switch {
+					case p.isObj(x.Lhs[0], takeObj):
+						return []string{"take"}
+					case p.isObj(x.Lhs[0], modeObj):
+						if p.IsField(x.Rhs[0], "addressRewriteRuleMapping.mode") {
+							return []string{"mode"}
 						}
+						return []string{"mode?"}
+					case p.isObj(x.Lhs[0], bestObj):
+						return []string{"best"}
 					}
 				}
 			case *ast.ReturnStmt:
@@ -160,8 +167,8 @@ func checkC19(p *Prog, r *Report) {
 					m := "mode?"
 					if p.IsField(x.Results[2], "addressRewriteRuleMapping.mode") {
 						m = "rule.mode"
-					} else if id, ok := unparen(x.Results[2]).(*ast.Ident); ok {
-						m = id.Name
+					} else if p.isObj(x.Results[2], modeObj) {
+						m = "catchAllMode"
 					} else if c := p.constName(x.Results[2]); c != "" {
 						m = c
 					}
@@ -191,16 +198,10 @@ func checkC19(p *Prog, r *Report) {
 					}
 				}
 			case "ord":
-				nm := func(e ast.Expr) string {
-					if id, ok := unparen(e).(*ast.Ident); ok {
-						return id.Name
-					}
-					return ""
-				}
-				if nm(a.X) == "spec" && nm(a.Y) == "bestSpec" {
+				if p.isObj(a.X, specObj) && p.isObj(a.Y, bestObj) {
 					return "spec", false
 				}
-				if nm(a.X) == "bestSpec" && nm(a.Y) == "spec" {
+				if p.isObj(a.X, bestObj) && p.isObj(a.Y, specObj) {
 					return "spec", true
 				}
 			case "range":
@@ -218,6 +219,16 @@ func checkC19(p *Prog, r *Report) {
 			var want []string
 			ended := false
 			var unclassified []string
+			// decisions of one iteration are collected and evaluated when the iteration ends, so that the
+			// verdict does not depend on the order in which the code evaluates them
+			iterCatchAll, iterSpec := false, ""
+			flush := func() {
+				if iterCatchAll && (!have || iterSpec == "GT") {
+					want = append(want, "take", "mode", "best")
+					have = true
+				}
+				iterCatchAll, iterSpec = false, ""
+			}
 			for _, d := range pa.Hist {
 				name, flip := classify(d.Atom)
 				val := d.Val
@@ -226,6 +237,7 @@ func checkC19(p *Prog, r *Report) {
 				}
 				switch {
 				case d.Atom.Kind == "range":
+					flush()
 					if d.Val == "iter" {
 						want = append(want, "iter")
 					} else {
@@ -242,16 +254,12 @@ func checkC19(p *Prog, r *Report) {
 					want = append(want, "return(matched=true,rule.mode)")
 					ended = true
 				case name == "catchAll" && val == "true":
-					if !have {
-						want = append(want, "take", "mode", "best")
-						have = true
-					}
+					iterCatchAll = true
 				case name == "spec":
-					if val == "GT" {
-						want = append(want, "take", "mode", "best")
-					}
+					iterSpec = val
 				}
 			}
+			flush()
 			_ = ended
 			if len(unclassified) > 0 {
 				badPaths++
